@@ -243,6 +243,19 @@ def rt_melt_recast(inp):
     expect(len(got) == len(exp), 'row-count', len(exp), len(got))
     expect(sorted(map(repr, got[1:])) == sorted(map(repr, exp[1:])), 'cells-routed/' + sub, exp, got)
     expect(got == exp, 'sorted-by-key', exp, got)
+    # sampling boundary: `samplesize` counts DATA rows of the molten table; a sample that just reaches the first
+    # occurrence of the last new variable must still discover every variable
+    if len(t) > 1 and len(V) >= 1:
+        mrows = lot(m)
+        vpos = mrows[0].index(names[0] if names else 'variable')
+        seen, last_first = set(), 0
+        for i, r in enumerate(mrows[1:], 1):
+            if r[vpos] not in seen:
+                seen.add(r[vpos])
+                last_first = i
+        if last_first >= 1:
+            got2 = lot(etl.recast(m, samplesize=last_first, **kw))
+            expect(got2 == exp, 'samplesize-just-sufficient', exp, got2)
 
 
 # ------------------------------------------------------------------------------------------------ transpose
